@@ -1,4 +1,5 @@
 import TrackpyV.Props.C02
+import TrackpyV.Props.C02Algo
 import TrackpyV.Proofs.AssignIter
 /-!
 # C02 (continued) — the two ITERATIVE solvers are inside the model
